@@ -139,7 +139,9 @@ def tmpl_multi(rng):
              "targets": {"p": {"inp": p_in, "out": p_out, "hasInput": True},
                          "c": {"inp": c_in, "out": ["c.out"], "hasInput": True}},
              "focus": ["C13", "C18"]}
-    return {"files": {"zinoma.yml": T_ROOT, "sub/zinoma.yml": T_SUB}, "model": model,
+    # the importing project may name the imported directory through a symbolic link or a dotted spelling: one directory all the same
+    imp = rng.choice(["sub", "sub", "sublink", "sub/../sublink/."])
+    return {"files": {"zinoma.yml": T_ROOT.replace("sub: sub", "sub: " + imp), "sub/zinoma.yml": T_SUB}, "model": model,
             "members": ["data/x.txt", "sub/data/x.txt", "sub/gen/a.o", "sub/gen/deep/b.o", "sub/gen/lib.o"],
             "real": {"sub/gen/lib.o": "sub/real/lib.o.1"},
             "setup": [{"op": "symlink", "path": "sub/gen/lib.o", "to": "../real/lib.o.1", "m": {}},
@@ -169,19 +171,31 @@ T_NOINPUT = """targets:
     output:
       - paths: [docs.out]
     build: 'true'
+  gen_docs:
+    input:
+      - paths: [g.in, d.in]
+    build: 'true'
+  Gen:
+    input:
+      - paths: [d.in]
+    build: 'true'
 """
 
 
 def tmpl_names(rng):
+    # names that differ only in '-' / '_' or in letter case, one a prefix of another, the same inputs: their records stay apart
     model = {"paths": ["o.txt", "g.in", "d.in", "docs.out", "x.txt"],
              "targets": {"t": {"inp": [], "out": ["o.txt"], "hasInput": False},
                          "gen": {"inp": ["g.in"], "out": [], "hasInput": True},
-                         "gen-docs": {"inp": ["g.in", "d.in"], "out": ["docs.out"], "hasInput": True}},
+                         "gen-docs": {"inp": ["g.in", "d.in"], "out": ["docs.out"], "hasInput": True},
+                         "gen_docs": {"inp": ["g.in", "d.in"], "out": [], "hasInput": True},
+                         "Gen": {"inp": ["d.in"], "out": [], "hasInput": True}},
              "focus": ["C18", "C08"]}
     return {"files": {"zinoma.yml": T_NOINPUT}, "model": model, "members": ["g.in", "d.in"], "others": ["x.txt"],
-            "outs": {"t": ["o.txt"], "gen": [], "gen-docs": ["docs.out"]}, "targets": ["t", "gen", "gen-docs"],
-            "inv": {k: dict(entry=".", name=k) for k in ("t", "gen", "gen-docs")},
-            "state": {k: (".", k) for k in ("t", "gen", "gen-docs")}}
+            "outs": {"t": ["o.txt"], "gen": [], "gen-docs": ["docs.out"], "gen_docs": [], "Gen": []},
+            "targets": ["t", "gen", "gen-docs", "gen_docs", "Gen"],
+            "inv": {k: dict(entry=".", name=k) for k in ("t", "gen", "gen-docs", "gen_docs", "Gen")},
+            "state": {k: (".", k) for k in ("t", "gen", "gen-docs", "gen_docs", "Gen")}}
 
 
 T_DUP = """targets:
